@@ -81,6 +81,7 @@ def main():
         rc = json.load(open(a.replay))["case"]
         cases = [c for c in cases if c[0] == rc["case"]]
     big = 0
+    nalrm = 0
     for case in cases:
         res = qqrun.run_qq(tree, ids, work, case)
         record(case, res, None, None)
@@ -112,6 +113,12 @@ def main():
         for k in ks:
             kres = qqrun.run_qq(tree, ids, work, case, kill=k)
             record(case, kres, None, k)
+        # the program's own 24-hour timer expiring before its k-th call (SIGALRM: its handler runs): every k for the first
+        # cases, sampled for the rest
+        nalrm += 1
+        for k in ([k for k, _, _ in calls] if (thorough or nalrm <= 4) else ks):
+            ares = qqrun.run_qq(tree, ids, work, case, kill=k, sig=14)
+            record(case, ares, None, "alrm%d" % k)
 
     recfile = ck.scratch.path("c01.ndjson")
     write_ndjson(recfile, [{k: v for k, v in r.items() if k not in ("case", "faultdesc")} for r in runs])
